@@ -345,6 +345,10 @@ func TestC15_faults(t *testing.T) {
 				c15Faults(rt, r, cs, m.c, m.c15Prep(cs.Plan))
 			} else {
 				lc := &lCase{Cfg: genLCfg(rt)}
+				for i := range lc.Cfg.Apps {
+					// a fee-distribution token among the traded ones: the conversion of collected swap fees (every 150th block) has work to do
+					lc.Cfg.Apps[i].DistrDenom = rapid.SampledFrom([]string{"", "uaaa", "ubbb", "uccc"}).Draw(rt, fmt.Sprintf("distrdenom%d", i))
+				}
 				cs.L = lc
 				m := newLMachine(rt, r, "C15", lc)
 				n := rapid.IntRange(10, 45).Draw(rt, "nops")
